@@ -874,6 +874,11 @@ class SgzReader(object):
         self.variant_headers.clear()
         self.include_padding = None
 
+    def _set_variant_header_padding(self, include_padding):
+        # Header arrays cached for unstructured files are either padded or not, start afresh if this changes
+        if not self.structured and self.include_padding not in (None, include_padding):
+            self.clear_variant_headers()
+
     def read_variant_headers(self, include_padding=False, tracefields=None):
         """Reads all variant headers from SGZ file into a dictionary called variant_headers
 
@@ -928,6 +933,7 @@ class SgzReader(object):
         -------
         header_array : numpy.ndarray of int32, shape (tracecount)
         """
+        self._set_variant_header_padding(True)
         self.read_variant_headers(include_padding=True, tracefields=[segyio.tracefield.TraceField(tracefield)])
         return self.variant_headers[tracefield]
 
@@ -977,6 +983,7 @@ class SgzReader(object):
         for k, v in header.items():
             if isinstance(v, FileOffset):
                 if load_all_headers or not self.structured:
+                    self._set_variant_header_padding(False)
                     self.read_variant_headers()
                     header[k] = self.variant_headers[k][index]
                 else:
